@@ -317,6 +317,37 @@ def discharge(ctx, body, p, ev, kind):
                 hi_ok = hi_ == LEN or within(hi_) or counted(hi_)
                 if lo_ok and hi_ok and (const_int(strip_refs(lo_)) == 0 or hi_ == LEN or (length_of(hi_) is not None and length_of(hi_) == c0)):
                     return "G6-slice-at-counted-position"
+
+                def enum_index(t):
+                    """the index yielded by c.iter().enumerate() over the same collection: a position below its length"""
+                    t = strip_refs(t)
+                    if isinstance(t, tuple) and len(t) > 2 and t[0] == "field" and t[2] == 0 and isinstance(t[1], tuple) and t[1][0] == "field" and t[1][2] == 0 \
+                            and isinstance(t[1][1], tuple) and t[1][1][0] == "downcast" and t[1][1][2] == "Some" and is_call(strip_refs(t[1][1][1]), "Enumerate<I> as std::iter::Iterator>::next"):
+                        en = [x for x in subterms(t[1][1][1]) if is_call(x, "Iterator::enumerate")]
+                        if len(en) == 1:
+                            it = strip_refs(call_args(en[0])[0])
+                            return is_call(it, "[T]>::iter") and _lib.coll(call_args(it)[0]) == c0
+                    return False
+
+                def less(a, b, strict_ok=True):
+                    """a < b or a <= b established by a comparison on the path before the site (b == LEN stands for the collection's length)"""
+                    a0 = strip_refs(a)
+                    for c in conds_before(p, bb):
+                        t = c.term
+                        if not (isinstance(t, tuple) and t and t[0] == "binop" and t[1] in ("Lt", "Le", "Gt", "Ge") and c.fact[0] == "eq" and isinstance(c.fact[1], bool)):
+                            continue
+                        op, l, r = t[1], strip_refs(t[2]), strip_refs(t[3])
+                        if not c.fact[1]:
+                            op = {"Lt": "Ge", "Le": "Gt", "Gt": "Le", "Ge": "Lt"}[op]
+                        if op in ("Gt", "Ge"):
+                            l, r = r, l
+                            op = {"Gt": "Lt", "Ge": "Le"}[op]
+                        if l == a0 and ((b == LEN and length_of(r) is not None and length_of(r) == c0) or (b != LEN and r == strip_refs(b))):
+                            return True
+                    return False
+                # bytes[a..b] with a <= b established on the path and b a position of the collection (its length, or the enumerate() index)
+                if (hi_ == LEN or enum_index(hi_) or (length_of(hi_) is not None and length_of(hi_) == c0)) and less(lo_, hi_):
+                    return "G6-ordered-range-below-length"
         if last == "index" and "[T]" in nm:
             coll, rg = ev.args[0], ev.args[1]
             a = agg_variant(rg)
